@@ -79,7 +79,9 @@ Definition show_state (s : sf) : list N :=
   ++ [N.of_nat (length fm)]
   ++ flat_map (fun r => [fst r; snd r]) fm.
 
-Definition flt_of (kind a b : N) : filter_fn :=
+(* kind + 16: the harness also passes a query vector with the listing request; a listing does not look at it *)
+Definition flt_of (kind0 a b : N) : filter_fn :=
+  let kind := kind0 mod 16 in
   fun id md =>
     if kind =? 1 then (id mod a =? b)
     else if kind =? 2 then (blen md mod a =? b)
